@@ -253,15 +253,21 @@ pub fn run(ctx: &Ctx) -> Outcome {
             let bytes = std::fs::read(p).map_err(|e| Failure::new("infra", format!("{p:?}: {e}"), json!(null)))?;
             let zone = TimeZone::from_tz_data(&bytes).map_err(|e| Failure::new("ref", format!("{}: real file refused: {e:?}", p.display()), json!({"what": p.display().to_string()})))?;
             let zr = zone.as_ref();
-            let leaps: Vec<(i64, i32)> = zr.leap_seconds().iter().map(|l| (l.unix_leap_time(), l.correction())).collect();
+            // what the FILE records is taken from the independent reader, not from the decoded zone's accessors: the region in which a
+            // rule-less file may answer "no local time type" is defined by the file's own last transition (seeded change C10-r10m1
+            // dropped the no-op expiry transition of the right/ files while decoding and thereby moved that region)
+            let fm = crate::tzif::read(&bytes).map_err(|e| Failure::new("infra", format!("{}: independent reader refuses a real file: {e}", p.display()), json!(null)))?;
+            let blk = if fm.version == 1 { &fm.v1 } else { fm.v2.as_ref().unwrap_or(&fm.v1) };
+            let leaps: Vec<(i64, i32)> = blk.leaps.clone();
+            let file_times: Vec<i64> = blk.times.clone();
             let name = p.strip_prefix(verif.join("build/zoneinfo")).unwrap_or(p).display().to_string();
             b.load(p, true, !right);
             st.class(if right { "right_files" } else { "main_files" });
-            let last_u = zr.transitions().last().and_then(|t| oleap::g(&leaps, t.unix_leap_time()));
-            let has_rule = zr.extra_rule().is_some();
+            let last_u = file_times.last().and_then(|&t| oleap::g(&leaps, t));
+            let has_rule = !crate::tzstr::trim_ascii_ws(&fm.footer).is_empty();
             let mut instants: Vec<(i64, &'static str)> = vec![];
-            for t in zr.transitions() {
-                if let Some(u) = oleap::g(&leaps, t.unix_leap_time()) {
+            for &t in &file_times {
+                if let Some(u) = oleap::g(&leaps, t) {
                     for d in [-1i64, 0, 1] {
                         instants.push((u + d, "transition"));
                     }
